@@ -163,6 +163,40 @@ func c19(r *Run) {
 	sort.Strings(fields)
 	r.ob("C19.R1:census", "atomic discipline census", nil, nil, true, fmt.Sprintf("%d atomic fields: %s; %d plain accesses examined", len(fields), strings.Join(fields, ", "), nPlain), false)
 
+	// fields that two goroutines touch without a common lock and that therefore have to be atomic, although nothing forces
+	// it yet (no access is atomic today): one line of reason per field
+	mustBeAtomic := map[string]string{
+		"netFD.detaching": "set by Detach() on a user goroutine, read by netFD.Close on whichever goroutine runs the finalizer (the poller's hang-up goroutine, the handler task, another Close)",
+	}
+	for _, f := range w.Funcs {
+		forEachIns(f, func(ins ssa.Instruction) {
+			var addr ssa.Value
+			switch x := ins.(type) {
+			case *ssa.UnOp:
+				if x.Op == token.MUL {
+					addr = x.X
+				}
+			case *ssa.Store:
+				addr = x.Addr
+			}
+			if addr == nil {
+				return
+			}
+			tn, fld, _, ok := fieldOf(addr)
+			if !ok {
+				return
+			}
+			why, listed := mustBeAtomic[tn+"."+fld]
+			if !listed {
+				return
+			}
+			r.ob("C19.R1:shared-flag-is-atomic:"+tn+"."+fld+":"+w.FnName(f), tn+"."+fld+" is accessed through sync/atomic only: "+why, f, ins, false, "plain access", false)
+		})
+	}
+	for name := range mustBeAtomic {
+		r.ob("C19.R1:shared-flag-is-atomic:"+name, name+" is declared and accessed atomically", nil, nil, atomicField[name], "atomic accesses found", false)
+	}
+
 	// ---- R2 guarded-by ----------------------------------------------------------------------------------
 	spin := func(suffix string) (acq, rel func(ssa.Instruction) bool) {
 		lockFn, unlockFn := w.MustFn("lock"), w.MustFn("unlock")
@@ -319,6 +353,9 @@ func c19(r *Run) {
 			r.absentf(" C19: onDisconnect does not read connection.ctx")
 		}
 	}
+	// the close-callback list: registration is one step and links before it publishes; the slot is touched by a closer only
+	// once it owns the teardown (C05)
+	r.borrow([]string{"C05.R5:register-is-one-step", "C05.R5:node-linked-before-published", "C05.R12:detach-after-lock"}, "C05.R", "C19.R2.c05.", func() { c05(r) })
 	// connection.maxSize / bookSize: poller callbacks, Release under the slot token, init
 	{
 		ro := r.roles()
